@@ -150,7 +150,16 @@ EXPORT errno_t _wcrtomb_s_chk(size_t *restrict retvalp, char *restrict dest,
         }
     }
 
-    len = *retvalp = wcrtomb(dest, wc, ps);
+    if (dest && dmax < MB_LEN_MAX) {
+        /* wcrtomb may store up to MB_CUR_MAX bytes: convert aside, copy what fits */
+        char tmp[MB_LEN_MAX];
+        len = wcrtomb(tmp, wc, ps);
+        if (len != (size_t)-1 && len < dmax)
+            memcpy(dest, tmp, len);
+        *retvalp = len;
+    } else {
+        len = *retvalp = wcrtomb(dest, wc, ps);
+    }
 
     if (likely(len < dmax)) {
         if (dest) {
